@@ -46,7 +46,7 @@ func runTimed(env *Env) error {
 		j := job{id: fmt.Sprintf("timed-%d", i), T: T}
 		at := 0
 		k := env.Rnd.Intn(6)
-		kind := i % 6
+		kind := i % 7
 		if kind == 5 && i%12 == 5 {
 			k = 20 + env.Rnd.Intn(20) // long-lived: many multiples of T
 		}
@@ -78,6 +78,13 @@ func runTimed(env *Env) error {
 			w := (&Req{Op: opWriteFile, N: 100, Payload: make([]byte, 100), Junk: make([]byte, 14)}).Wire()
 			j.chunks = append(j.chunks, timedChunk{at, w[:60]})
 			j.kind = "stall-payload"
+		case 6: // one request dripping in, a few bytes every 0.35 T: never silent for T, never complete within T
+			at += T/10 + env.Rnd.Intn(T/3)
+			for p := 0; p < len(stat); p += 3 {
+				j.chunks = append(j.chunks, timedChunk{at, stat[p:min(p+3, len(stat))]})
+				at += T * 35 / 100
+			}
+			j.kind = "drip"
 		case 4: // two requests pipelined in one chunk, then silence
 			at += T/10 + env.Rnd.Intn(T/3)
 			j.chunks = append(j.chunks, timedChunk{at, append(append([]byte{}, stat...), stat...)})
